@@ -405,3 +405,90 @@ PROPERTIES["C12"] = {
             "(AST, ops); non-trivial when nesting depth >= 1 and >= 3 Next calls.",
     "assumptions": [],
 }
+
+
+# ------------------------------------------------------------------ more runner families
+def class_view(o):
+    t = tag(o)
+    return [t] if t in ("line", "opts", "end", "err", "wait", "panic") else o
+
+
+def cmd_log_projection(line):
+    res = sexp.parse(line)
+    if tag(res) != "res" or len(res) < 3:
+        return sexp.dump(res[:2]) if isinstance(res, list) else line
+    obs = [flow_view(o) for o in res[2]]
+    logs = [[e for e in r[1] if tag(e) == "cmd"] for r in res[3]]
+    return sexp.dump([obs, logs] + ([["ast-mismatch"]] if len(res) > 4 else []))
+
+
+def no_panic_oracle(fam_name):
+    base = runner_oracle(fam_name, "fault handling")
+    def oracle(case, obs, exp):
+        if tag(obs) in ("CRASH", "HARNESS-PANIC"):
+            return "violation", "the process running the dialogue died (unrecovered panic or fatal error)"
+        o = _obs_list(obs)
+        if o is not None:
+            for i, ob in enumerate(o):
+                if tag(ob) == "panic":
+                    e = _obs_list(exp)
+                    if e is None or i >= len(e) or tag(e[i]) != "panic":
+                        return "violation", "operation %d panicked: %s" % (i, sexp.dump(case[10][1 + i]))
+        return base(case, obs, exp)
+    return oracle
+
+
+def _mk(name, proj, feat, oracle=None):
+    FAMILIES[name] = {"project": proj, "features": feat, "shrink": runner_shrink, "shrink_ok": runner_shrink_ok,
+                      "oracle": oracle}
+    if oracle is None:
+        FAMILIES[name]["oracle"] = runner_oracle(name, name)
+
+
+_mk("vars", runner_projection(flow_view, with_slog=True), runner_features(0, 3, need=["set"]))
+_mk("faults", runner_projection(class_view), runner_features(1, 4), no_panic_oracle("faults"))
+_mk("snap", runner_projection(flow_view, with_slog=True), runner_features(1, 4))
+_mk("cmds", cmd_log_projection, runner_features(0, 4, need=["cmd"]))
+_mk("visits", runner_projection(flow_view), runner_features(0, 5, need=["jump"]))
+
+PROPERTIES["C03"] = {
+    "families": [("vars", 220, 5000)],
+    "rule": "dialogues dominated by set/declare with all six operators over every pair of (stored type, assigned type), "
+            "first assignments and compound assignments to unknown names, host writes of any type between steps, on a "
+            "recording host Storer; compared: every Set*/Clear call the storer received, GetValues() at random points, "
+            "the rendered {$v} values and error positions. Non-trivial: contains set statements and >= 3 Next calls.",
+    "assumptions": [],
+}
+PROPERTIES["C06"] = {
+    "families": [("faults", 240, 6000)],
+    "rule": "valid scripts seeded with every fault class (ill-typed operands, unknown variables/functions/nodes/commands, "
+            "null, value-less functions, failing functions, dice/random_range/round_places out of domain incl. 0, "
+            "negatives, 1e30, NaN) at random depths; only the outcome class of each Next is compared (element/end/"
+            "error/waiting/panic). Non-trivial: nesting depth >= 1 and >= 4 Next calls. Scripts on which the model "
+            "runs out of fuel (non-yielding jump cycles, known finding D7) are not executed.",
+    "assumptions": ["choices are in range whenever an option group is waiting (adaptive generation)"],
+}
+PROPERTIES["C07"] = {
+    "families": [("snap", 160, 4000)],
+    "rule": "two runners of one script; random interleaving of Next, host writes, Snapshot into slots, re-reading OLD "
+            "snapshot objects after further steps (exposes shared maps), RestoreAt of any slot into either runner in "
+            "whatever state it is (mid-node, waiting for a choice, waiting for a command, ended), GetValues; compared: "
+            "traces, snapshot contents at every read, storer call logs. Non-trivial: depth >= 1 and >= 4 Next calls.",
+    "assumptions": ["scripts of this family draw no random numbers (neither RNG nor host state is part of a snapshot)"],
+}
+PROPERTIES["C10"] = {
+    "families": [("cmds", 200, 4000)],
+    "rule": "scripts dense in host commands (raw handlers whose channel the harness owns) with a completion schedule per "
+            "invocation: ready on return, or after 1-3 further polls, with nil or an error; <<wait 0.03/0.05>>; "
+            "unregistered commands; stop. Compared: Next outcomes and the handler invocation log (name, arguments). "
+            "Non-trivial: contains commands and >= 4 Next calls.",
+    "assumptions": ["the harness fills a handler's channel exactly between two Next calls (the schedule is imposed, not raced)"],
+}
+PROPERTIES["C11"] = {
+    "families": [("visits", 200, 5000)],
+    "rule": "jump-heavy graphs of 1-5 nodes (self-loops, cycles, jumps out of nested bodies, jumps by expression, unknown "
+            "targets, duplicate titles) with random tracking: never/always headers; every line renders "
+            "visited_count/visited for every node and a non-node; snapshots are taken, read and restored along the way. "
+            "Non-trivial: contains jumps and >= 5 Next calls.",
+    "assumptions": [],
+}
